@@ -135,19 +135,19 @@ json.dump(plan, open(os.path.join(ROOT, "plan.json"), "w"), indent=1)
 
 # ---------------------------------------------------------------- MANIFEST
 TEXT = {
- "C01": "Theorem over all runs of the Coq model (any number of keys, agents, steps, any schedule, both back-ends): no two live guards share a key; tries fail and waiters stay blocked while a guard is alive. Tied to the code by co-simulation of explored executions (every observation, snapshot, blocked set) plus a model-independent live-guard monitor.",
- "C02": "Theorem: no model step other than an operation on a guard (or consuming the container) changes any stored value, a guard operation only touches its own key, and a new guard reports the stored value; co-simulation compares every value the implementation reports; shadow-map monitor on the implementation.",
+ "C01": "Theorem over all runs of the Coq model (any number of keys, agents, steps, any schedule, both back-ends): no two live guards share a key; tries fail and waiters stay blocked while a guard is alive. Tied to the code by co-simulation of explored executions (every observation, snapshot, blocked set) plus a model-independent live-guard monitor. Second correspondence without the scheduler: recorded histories of real threads on the crate built without the hooks must be linearisable w.r.t. the abstract machine extracted from Coq (spec_call; Conc.v proves every interleaving of the model refines it) and replay on the model (DESIGN 4.10).",
+ "C02": "Theorem: no model step other than an operation on a guard (or consuming the container) changes any stored value, a guard operation only touches its own key, and a new guard reports the stored value; co-simulation compares every value the implementation reports; shadow-map monitor on the implementation. Second correspondence without the scheduler: recorded histories of real threads on the crate built without the hooks must be linearisable w.r.t. the abstract machine extracted from Coq (spec_call; Conc.v proves every interleaving of the model refines it) and replay on the model (DESIGN 4.10).",
  "C04": "Theorem: in every reachable model state the key set equals valued keys + keys with a live guard + keys some in-flight call holds a handle on; quiescent => exactly the valued keys; count/keys report that set. Co-simulation compares the key set and replica counts after every atomic segment; monitor recomputes the expected set from the harness' own bookkeeping.",
  "C12": "Theorem: in a reachable quiescent state into_entries_unordered is enabled, does not panic and returns exactly one pair per valued key with the stored value; co-simulation + multiset monitor on runs that end with consume.",
  "C03": "PARTIAL (protocol level). Theorems: no library-made deadlock as a reachability statement (C03_no_library_deadlock: from every reachable state a run to the state of rest exists that starts and cancels no lock call, so every waiter obtains its key once the guards in front of it are dropped; C03_draining_always_terminates: every run of that draining client is finite under every schedule, and it ends at rest); every in-flight call that is not waiting for a per-key mutex is enabled in every reachable state; free/absent keys are acquired without waiting; a free mutex has no waiters; release hands the key to the oldest waiter; a handed waiter can run; waiters are never detached; if nobody can move, every waiter waits for a client-owned guard. Co-simulation compares the implementation's set of blocked agents with the model's after every segment (lost wake-ups show as a mismatch); watchdog/self-deadlock detection in the harness. Not shown: that the runtime delivers wake-ups in finite time.",
- "C05": "Theorems: every guard operation returns and stores what the plain map would and touches nothing else; a lock call of any shape run to completion on a free key returns a guard with the map's value and a state that does not depend on the shape (variants interchangeable); a try on a locked/reserved key returns None and changes nothing a map + locked set can see; with soft limits (SeqLimit.v) a limited acquisition either suspends in its callback offering exactly what the map + locked set allows (offer_ok) or IS the unlimited acquisition, a failing callback leaves the map + locked set untouched, and calls made inside callbacks refine the abstract machine as before; and beyond the sequential case (Conc.v) every step of every interleaving acts on the plain map + locked set as a short sequence of the abstract machine's own calls returning exactly what was announced, so every concurrent history of the model is linearisable w.r.t. spec_call, and a try fails only on a locked or awaited key and succeeds on a key that is neither. Co-simulation on single-threaded histories (family seq: every call runs to completion, all eight variants incl. borrowed/owned chosen per call) compares every return value with the model; shadow-map monitor.",
+ "C05": "Theorems: every guard operation returns and stores what the plain map would and touches nothing else; a lock call of any shape run to completion on a free key returns a guard with the map's value and a state that does not depend on the shape (variants interchangeable); a try on a locked/reserved key returns None and changes nothing a map + locked set can see; with soft limits (SeqLimit.v) a limited acquisition either suspends in its callback offering exactly what the map + locked set allows (offer_ok) or IS the unlimited acquisition, a failing callback leaves the map + locked set untouched, and calls made inside callbacks refine the abstract machine as before; and beyond the sequential case (Conc.v) every step of every interleaving acts on the plain map + locked set as a short sequence of the abstract machine's own calls returning exactly what was announced, so every concurrent history of the model is linearisable w.r.t. spec_call, and a try fails only on a locked or awaited key and succeeds on a key that is neither. Co-simulation on single-threaded histories (family seq: every call runs to completion, all eight variants incl. borrowed/owned chosen per call) compares every return value with the model; shadow-map monitor. Second correspondence without the scheduler: recorded histories of real threads on the crate built without the hooks must be linearisable w.r.t. the abstract machine extracted from Coq (spec_call; Conc.v proves every interleaving of the model refines it) and replay on the model (DESIGN 4.10).",
  "C06": "Theorems: cancelling a pending async_lock (queued or handed) or dropping any pending per-entry future of a stream is always enabled, panics never, removes the call, reserves nothing, changes no value/guard and re-establishes the invariant; quiescent states contain exactly the valued keys. Co-simulation over exhaustive interleavings of cancel points x the other party's steps; monitors for leaked keys, panics and consume.",
  "C07": "Theorems: the callback is invoked only by a soft-limited call when len >= N, with a non-empty list of at most len-(N-1) distinct, previously unlocked, valued entries (exactly the first ones in iteration order), each now held by the offered guard and reported with its stored value; none without a limit or below it; when the call proceeds the container has at most max(N, non-evictable+1) entries. Co-simulation + callback-argument monitor. A round with a cooperative callback lowers the number of evictable entries and the loop runs at most that many rounds (theorems conditional on the round's label sequence being executed).",
  "C08": "PARTIAL (protocol level, like C03). Theorems: no reachable state is a deadlock among soft-limited and ordinary lockers (C08_no_deadlock_at_the_limit = drain); nothing evictable => proceeds without callback; the eviction step is always enabled; in the callback the call holds no handle and new (re-entrant) calls can start; a callback error ends the call with that error and leaves nothing. Harness: BeforeCallback hook asserts the global lock is not held; DFS over two soft-limited lockers.",
  "C09": "Theorems: what is offered is the prefix of the evictable entries in recency order; a lock call's look-up moves its key to the MRU end; no step moves, adds or removes any key other than its subject key (the key of the lock call / of the guard being unlocked). The interval formulation of the property is the theorem C09_interval_order over a ghost-instrumented run. Co-simulation compares the exact LRU order after every segment and the order of offered guards.",
  "C10": "Theorems: the call is total over all durations; the scan returns exactly the unlocked valued entries with stamp <= cut-off, each once with its value, and leaves every other entry and the order untouched; the stamp is the clock at the start of the guard drop; ticks change nothing. Co-simulation with a mock clock; monitor recomputes the expected set from the harness' own record of drops.",
  "C11": "Theorems: the snapshot is exactly the keys present at the critical section; the pending set never grows; an item is for a pending key, has the stored value, a live guard, and leaves the pending set; valueless guards are never yielded; end is reported iff the pending set is empty. Co-simulation incl. the per-entry sub-steps; stream monitor.",
- "C14": "Instances of the C01/C02/C04 theorems for the hash-map configuration without limits, plus try-lock success/failure and emptiness when idle. The harness drives the real LockPool type.",
+ "C14": "Instances of the C01/C02/C04 theorems for the hash-map configuration without limits, plus try-lock success/failure and emptiness when idle. The harness drives the real LockPool type. Second correspondence without the scheduler: recorded histories of real threads on the crate built without the hooks must be linearisable w.r.t. the abstract machine extracted from Coq (spec_call; Conc.v proves every interleaving of the model refines it) and replay on the model (DESIGN 4.10).",
  "C15": "Theorems: a panicking eviction callback leaves exactly the state an erroring one leaves; the panic reaches the caller after the guards it owned were released; a panicking value_or_insert_with closure changes nothing; values are untouched by everything the library does; all later states satisfy the invariant. Harness injects panics at callbacks and closures (cbret panic, cpanic) and keeps using the container.",
  "C13": "Theorem: no label makes the model panic in any reachable state (all expect/assert sites and the slow_assertions check at both ends of every critical section are modelled as RPanic); granularity theorem (Fine.v): fine-grained runs in which _unlock / PendingLock::drop are split at the release of the key mutex, with lock-free steps of other agents in between, linearise to runs of the model; co-simulation runs the real crate with slow_assertions and catches panics, poisoning, self-deadlock and hangs.",
 }
